@@ -83,6 +83,34 @@ pub fn universes(tier: Tier) -> Vec<GenParams> {
             }
         }
     }
+    // the other protocol modes of the resolver: a consistent tree must resolve whenever
+    // the mode allows an address family the servers have (prefer-v6 with v4-only
+    // servers, prefer-v4 with v6-only servers, either with dual-stack servers, only-v6)
+    for depth in 1..=2usize {
+        for s in [NsStyle::InZoneGlue, NsStyle::InParent, NsStyle::Sibling, NsStyle::SiblingApexNs] {
+            for send_additional in [true, false] {
+                for (fam, mode) in [
+                    (Family::V4, 2u8),
+                    (Family::V4, 1),
+                    (Family::V6, 1),
+                    (Family::V6, 2),
+                    (Family::V6, 3),
+                    (Family::Dual, 1),
+                    (Family::Dual, 2),
+                    (Family::Dual, 3),
+                ] {
+                    if depth == 2 && mode == 3 && fam == Family::Dual {
+                        continue;
+                    }
+                    let mut p = GenParams::simple(depth, s, 1);
+                    p.send_additional = send_additional;
+                    p.families = vec![fam; depth + 2];
+                    p.resolver_mode = mode;
+                    out.push(p);
+                }
+            }
+        }
+    }
     out
 }
 
@@ -237,11 +265,21 @@ fn spec_to_replay(p: &GenParams, steps: &[Step], choices: &[usize]) -> Value {
             "send_additional": p.send_additional,
             "chase_in_reply": p.chase_in_reply,
             "v6_glue_first": p.v6_glue_first,
+            "resolver_mode": p.resolver_mode,
             "families": p.families.iter().map(|f| format!("{f:?}")).collect::<Vec<_>>(),
         },
         "steps": steps.iter().map(step_to_json).collect::<Vec<_>>(),
         "choices": choices,
     })
+}
+
+pub fn protocol_of(p: &GenParams) -> ProtocolMode {
+    match p.resolver_mode {
+        1 => ProtocolMode::PreferV4,
+        2 => ProtocolMode::PreferV6,
+        3 => ProtocolMode::OnlyV6,
+        _ => ProtocolMode::OnlyV4,
+    }
 }
 
 pub fn step_to_json(s: &Step) -> Value {
@@ -302,6 +340,7 @@ pub fn params_from_json(v: &Value) -> GenParams {
         send_additional: v["send_additional"].as_bool().unwrap_or(true),
         chase_in_reply: v["chase_in_reply"].as_bool().unwrap_or(false),
         v6_glue_first: v["v6_glue_first"].as_bool().unwrap_or(false),
+        resolver_mode: v["resolver_mode"].as_u64().unwrap_or(0) as u8,
         families: v["families"].as_array().map(|a| a.iter().map(|s| fam(s.as_str().unwrap_or(""))).collect()).unwrap_or_default(),
     }
 }
@@ -309,7 +348,8 @@ pub fn params_from_json(v: &Value) -> GenParams {
 use crate::procpar::{self, JsonAcc};
 
 pub fn check_history(acc: &mut JsonAcc, p: &GenParams, u: &Arc<Universe>, steps: Vec<Step>, max_exec: u64) {
-    let spec = base_spec(u.clone(), steps.clone());
+    let mut spec = base_spec(u.clone(), steps.clone());
+    spec.protocol_mode = protocol_of(p);
     acc.count("histories", 1);
     let truths: Vec<Truth> = steps
         .iter()
@@ -513,7 +553,8 @@ fn replay_inner(ctx: &Ctx, v: &Value) -> i32 {
         .iter()
         .filter_map(|c| c.as_u64().map(|c| c as usize))
         .collect();
-    let spec = base_spec(u.clone(), steps.clone());
+    let mut spec = base_spec(u.clone(), steps.clone());
+    spec.protocol_mode = protocol_of(&p);
     let res = run_once(&spec, &choices);
     let res2 = run_once(&spec, &choices);
     println!("universe: {}", u.describe());
